@@ -513,12 +513,33 @@ def check_pass(prog: Program, res: Result) -> None:
         extra = [t for t in conj if not (isinstance(t, ast.Name) and t.id in params)]
         ok = bool(extra)
         for t in extra:
-            if isinstance(t, ast.Name):  # a flag: False before the loop, True only where a new id is allocated
+            if isinstance(t, ast.Name):
+                # a witness of "a track was created": a flag (False before the loop, True only where a new id is allocated)
+                # or a list (empty before the loop, appended to only where a new id is allocated)
+                def _with_alloc(s_):
+                    """s_ runs exactly when an id is allocated: the allocation call is in the same block, or in an enclosing if-body."""
+                    is_alloc = lambda n_: any(isinstance(x, ast.Call) and norm(x.func).endswith("get_new_track_id") for x in ast.walk(n_))
+                    from ..core.program import enclosing_stmt as _es
+                    cur = s_ if isinstance(s_, ast.stmt) else _es(s_)
+                    while cur is not None and not isinstance(cur, (ast.FunctionDef, ast.For, ast.While)):
+                        par = getattr(cur, "_parent", None)
+                        for fld in ("body", "orelse"):
+                            blk = getattr(par, fld, None)
+                            if isinstance(blk, list) and cur in blk and not isinstance(par, (ast.FunctionDef,)):
+                                if any(is_alloc(x) for x in blk if not isinstance(x, (ast.If, ast.For, ast.While)) or x is cur):
+                                    return True
+                        cur = par if isinstance(par, ast.If) else None
+                    return False
+
                 sets = [s_ for s_ in walk_function(an.node) if isinstance(s_, ast.Assign) and norm(s_.targets[0]) == t.id]
                 trues = [s_ for s_ in sets if astq.const_value(s_.value) is True]
                 falses = [s_ for s_ in sets if astq.const_value(s_.value) is False]
-                in_alloc = all(any(isinstance(a, ast.If) and any(isinstance(x, ast.Call) and norm(x.func).endswith("get_new_track_id") for x in ast.walk(a)) and astq.in_body_of(s_, a) for a in ancestors(s_)) for s_ in trues)
-                ok = ok and len(sets) == len(trues) + len(falses) and len(falses) == 1 and bool(trues) and in_alloc and not astq.enclosing_loops(falses[0])
+                empties = [s_ for s_ in sets if isinstance(s_.value, ast.List) and not s_.value.elts]
+                adds = [c_ for c_ in astq.method_calls(an.node, "append") if norm(c_.func.value) == t.id]
+                if empties:
+                    ok = ok and len(sets) == 1 and not astq.enclosing_loops(empties[0]) and bool(adds) and all(_with_alloc(c_) for c_ in adds)
+                else:
+                    ok = ok and len(sets) == len(trues) + len(falses) and len(falses) == 1 and bool(trues) and all(_with_alloc(s_) for s_ in trues) and not astq.enclosing_loops(falses[0])
         res.ob(R, ok, an.qualname, "the frame enters the window only if this call created a track",
                f"`{short(c, 50)}` is guarded by `{' and '.join(short(t, 30) for t in conj) or 'nothing'}`: a frame in which no track was created (empty / below threshold) is queued, "
                "after which track() keeps matching against zero tracks and never creates one", f"{an.module.relpath}:{c.lineno}")
